@@ -170,11 +170,12 @@ def run(ctx):
     quick = ctx.tier == "quick"
     rng = ctx.rng
     trans = []
-    t1, s1 = explore(3, 5 if quick else 6, 700 if quick else 6000, True)
+    mid = getattr(ctx, "escalated", False)      # quick tier on changed sources: between the two sizes
+    t1, s1 = explore(3, 5 if quick else 6, 700 if quick else 2500 if mid else 6000, True)
     trans += t1
-    t2, s2 = explore(4, 3 if quick else 4, 150 if quick else 3000, False)
+    t2, s2 = explore(4, 3 if quick else 4, 150 if quick else 800 if mid else 3000, False)
     trans += t2
-    for _ in range(15 if quick else 300):
+    for _ in range(15 if quick else 80 if mid else 300):
         trans += random_history(8, rng, 60 if quick else 120)
     fails, diffs, samples = [], [], []
     reqs = []
